@@ -123,6 +123,39 @@ func cmdWindow(args []string) {
 		// whatever thisUpdate says
 		absent bool
 	}
+	// objects that matter to a lint: those on which it answers anything but NA when every object is dated inside the lint's window
+	// (a sequential look at the certificates, dated 2024-03-01 or as they are): a lint's own test objects are always judged at
+	// its boundaries, whatever the sampling of the rest
+	relevant := map[int][]int{} // lint index (certificates) -> object indices
+	if only == "" {
+		late := time.Date(2024, 3, 1, 0, 0, 0, 0, time.UTC)
+		rel := make([][]int, len(objs["cert"]))
+		parallel(len(objs["cert"]), func(oi int) {
+			t := objs["cert"][oi]
+			for pass := 0; pass < 2; pass++ {
+				tt := t
+				if pass == 1 {
+					tt, _ = redate(t, late, 0)
+				}
+				rs, esc, hung := runSet(tt, g)
+				if rs == nil || esc != "" || hung {
+					continue
+				}
+				for li, l := range byKind["cert"] {
+					if r := rs.Results[l.Name]; r != nil && r.Status != lint.NA && r.Status != lint.NE && r.Status != lint.Pass {
+						rel[oi] = append(rel[oi], li)
+					}
+				}
+			}
+		})
+		for oi, ls := range rel {
+			for _, li := range ls {
+				if len(relevant[li]) < 4 && (len(relevant[li]) == 0 || relevant[li][len(relevant[li])-1] != oi) {
+					relevant[li] = append(relevant[li], oi)
+				}
+			}
+		}
+	}
 	var jobs []job
 	nb := 0
 	stride := 4
@@ -132,12 +165,20 @@ func cmdWindow(args []string) {
 	for _, k := range kinds {
 		for bi, b := range boundariesOf(byKind[k]) {
 			nb++
+			must := map[int]bool{}
+			if k == "cert" {
+				for _, li := range b.idx {
+					for _, oi := range relevant[li] {
+						must[oi] = true
+					}
+				}
+			}
 			for di, d := range []int{-1, 0, 1} {
 				for oi, t := range objs[k] {
 					if only != "" && t.ID != only {
 						continue
 					}
-					if only == "" && k == "cert" && (oi+bi*3+di+int(seed))%stride != 0 {
+					if only == "" && k == "cert" && !must[oi] && (oi+bi*3+di+int(seed))%stride != 0 {
 						continue
 					}
 					zone := 0
